@@ -26,14 +26,19 @@ MANIFEST = {
 RULE = (
     'Generated workflow (2-5 tasks, 2-3 cycles, and/or prerequisites, '
     'inter-cycle offsets, custom / optional outputs, sometimes an explicit '
-    'completion expression "x and (succeeded or failed)"), random job '
+    'completion expression "x and (succeeded or failed)"; in a third of '
+    'the "set" cases most tasks have 1-2 execution retry delays), random job '
     'outcomes, a history over loop / return / advance / deliver / fair-round '
     '/ hold / pause / resume, then one of two case kinds.  Kind "set" (70 %): '
     '1-2 `cylc set` commands (commands.set_prereqs_and_outputs) on a pooled '
     'task or any model instance (waiting, live, finished, not yet spawned) '
     'with: no options; --out=<1-3 names from the task\'s standard and custom '
     'outputs, sometimes an unknown name>; --pre=all; --pre=<1-3 prerequisites, '
-    'own ones and foreign / unknown ones>; flow option default/new/1/2/none; '
+    'own ones and foreign / unknown ones>, in half of these one command '
+    'addressed to 2-3 tasks with the union of their selections (each target '
+    'is checked against its own share); --out=failed,.. directed at a task '
+    'with a live job (with retries lined up, if any) when the workflow has '
+    'retry delays; flow option default/new/1/2/none; '
     'more steps; fair drain.  Oracle on the pool snapshots and the '
     'task_outputs table read through a fresh connection before/after each '
     'command: (O1) completed outputs afterwards include the selection and its '
@@ -73,6 +78,20 @@ ASSUMPTIONS = [
     'allowed in addition (auto-spawned when the runahead window moves).',
     '"Then runs" is decided at quiescence / shutdown of the fair drain, for '
     'the last command only; iteration cap => inconclusive.',
+    'Outputs missing after `cylc set` are reported per root cause, each '
+    'group under its own signature: (a) ":not-recorded-in-db" only for '
+    'outputs that were observed complete on the transient proxy of an '
+    'inactive target AND for which the UPDATE of task_outputs was observed '
+    'queued for a flow set that no task_outputs row of the task has (only '
+    'overlapping rows: e.g. row [1,2], --flow=2); (b) ":submit-failed" only '
+    'for a selected submit-failed that was never completed on the proxy '
+    'either; (c) everything else under the plain selected / implied / '
+    'default signatures.  Setting failed on a task that succeeded earlier '
+    '(or vice versa) is inside the statement ("marks those outputs '
+    'complete", any state); cylc does complete it on the proxy.',
+    'Execution retry delays are configured only in "set" cases: in the '
+    'differential twin a failing job with retries left would (rightly) not '
+    'complete failed, unlike `set --out=failed`.',
     'Differential clause: compared modulo job records, the target itself, '
     'and how a prerequisite was satisfied (forced / naturally); only the '
     'model children of the target are compared, in a paused workflow, so '
@@ -720,7 +739,11 @@ def _oracle_set(sc: SCase, ast: Ast, final_pool, paused_end, crashed, viol,
                 gained = _truthy(ca) - (
                     _truthy(before[cid]) if cid in before else set())
                 for o in ast.outputs_of(name):
-                    if ast.key(name, p, o) in gained and o not in outs_a:
+                    # (an output completed by this command on the proxy is
+                    # complete for this purpose even if the DB lost it: that
+                    # loss is reported under (O1))
+                    if (ast.key(name, p, o) in gained and o not in outs_a
+                            and o not in new):
                         viol.append(Violation(
                             'C29:prerequisite-on-uncompleted-output-satisfied',
                             f'cylc set {ev["outputs"]} on {tid}: {cid} now '
